@@ -563,11 +563,76 @@ func judged(c Case) *ev.Verdict {
 
 func registerAll() {
 	ev.Register("inheritance", judged)
+	ev.Register("small-scope", oracle)
 }
 
 func TestPropInheritance(t *testing.T) {
 	registerAll()
 	ev.Rapid(t, "inheritance", ev.N(8000, 25000), genCase, judged)
+}
+
+// exhaustive small scope: @main, @t0, @t1; every key subset of {a, b}, every allOf choice
+// (none / one name / two names) and additionalProperties in {absent, true, false}
+func TestPropSmallScope(t *testing.T) {
+	registerAll()
+	ev.KeepFirst("small-scope")
+	names := []string{"@main", "@t0", "@t1"}
+	keySets := [][]string{nil, {"a"}, {"b"}, {"a", "b"}}
+	allOfs := [][]string{nil}
+	for _, n := range names {
+		allOfs = append(allOfs, []string{n})
+	}
+	allOfs = append(allOfs, []string{"@t0", "@t1"}, []string{"@t1", "@t0"}, []string{"@main", "@t0"})
+	aps := []string{""}
+	if ev.Thorough() {
+		aps = []string{"", "true", "false"}
+	}
+	type shape struct {
+		keys  []string
+		allOf []string
+		ap    string
+	}
+	var shapes []shape
+	for _, k := range keySets {
+		for _, a := range allOfs {
+			for _, ap := range aps {
+				shapes = append(shapes, shape{k, a, ap})
+			}
+		}
+	}
+	var n, nt, bad int64
+	idx := 0
+	for _, s0 := range shapes {
+		for _, s1 := range shapes {
+			for _, s2 := range shapes {
+				idx++
+				if !ev.Mine(idx) {
+					continue
+				}
+				c := Case{}
+				for i, sh := range []shape{s0, s1, s2} {
+					c.Types = append(c.Types, OType{Name: names[i], Keys: sh.keys, Opt: make([]bool, len(sh.keys)), Vals: make([]string, len(sh.keys)), AllOf: sh.allOf, AP: sh.ap})
+				}
+				n++
+				if len(s0.allOf)+len(s1.allOf)+len(s2.allOf) >= 2 {
+					nt++
+					if nt%20000 == 1 {
+						p, _ := c.project()
+						ev.Sample("small-scope", p.Text(nil))
+					}
+				}
+				if v := oracle(c); v != nil && ev.Report("small-scope", c, v) {
+					bad++
+				}
+			}
+		}
+	}
+	ev.Count("small-scope", n)
+	ev.NonTrivialEnum("small-scope", nt)
+	ev.Exhaustive("small-scope", fmt.Sprintf("all projects of three object types with keys in {a,b}, %d allOf choices and %d additionalProperties values each (%d shapes per type)", len(allOfs), len(aps), len(shapes)))
+	if bad > 0 {
+		t.Errorf("VIOLATION-CANDIDATE small-scope: %d", bad)
+	}
 }
 
 func TestPropRegressions(t *testing.T) {
